@@ -916,6 +916,61 @@ theorem latest_refines (hist : List AccountTotals) (s : RT) (h : RTInv hist s) :
   rw [hlen, h2, List.getElem?_drop]
   congr 2 <;> omega
 
+
+/-! ## The property as stated: every served round reports the sums over the accounts of that round -/
+
+/-- the account map after the first `n` blocks -/
+def mapAt : List Block → AMap → Nat → AMap
+  | _, A, 0 => A
+  | [], A, _ + 1 => A
+  | b :: rest, A, n + 1 => mapAt rest (applyMods A b.mods) n
+/-- the rewards level after the first `n` blocks -/
+def levelAt : List Block → Nat → Nat → Nat
+  | _, L, 0 => L
+  | [], L, _ + 1 => L
+  | b :: rest, _, n + 1 => levelAt rest b.level n
+
+theorem sumsAlong_length (unit : Nat) (dom : List Addr) : ∀ (blocks : List Block) (A : AMap),
+    (sumsAlong unit dom blocks A).1.length = blocks.length := by
+  intro blocks
+  induction blocks with
+  | nil => intro A; rfl
+  | cons b rest ih => intro A; simp [sumsAlong, ih]
+
+theorem hist_get (unit : Nat) (dom : List Addr) : ∀ (blocks : List Block) (A : AMap) (L n : Nat), n ≤ blocks.length →
+    (SumOf unit dom A L :: (sumsAlong unit dom blocks A).1)[n]? = some (SumOf unit dom (mapAt blocks A n) (levelAt blocks L n)) := by
+  intro blocks
+  induction blocks with
+  | nil =>
+    intro A L n hn
+    have : n = 0 := by simpa using hn
+    subst this; rfl
+  | cons b rest ih =>
+    intro A L n hn
+    cases n with
+    | zero => rfl
+    | succ m =>
+      have := ih (applyMods A b.mods) b.level m (by simpa using hn)
+      simpa [sumsAlong, mapAt, levelAt] using this
+
+/-- **C12 (model level).**  Take any history of blocks that never overflows and conserves money, evaluated block after block
+by `CalculateTotals` from the genesis sums, and any state `s` of the roundTotals bookkeeping reachable over that history
+(new blocks, commits of any prefix, reloads: `RTInv`).  Then for every round the ledger serves (`dbRound ≤ rnd ≤ latest`)
+the reported totals are the per-status sums of money with pending rewards and of reward units over all accounts at that
+round, with that round's rewards level. -/
+theorem served_totals_are_sums (unit : Nat) (dom : List Addr) (hnd : dom.Nodup) (blocks : List Block) (A : AMap) (L : Nat)
+    (hv : Valid dom A) (hb : BaseOK dom A L) (hg : GoodHist unit dom blocks A L)
+    (ts : List AccountTotals) (A' : AMap) (hrun : replay unit blocks (SumOf unit dom A L) A = .ok (ts, A'))
+    (s : RT) (hinv : RTInv (SumOf unit dom A L :: ts) s) (rnd : Nat) (hlo : s.dbRound ≤ rnd) (hhi : rnd ≤ blocks.length) :
+    s.totals rnd = some (SumOf unit dom (mapAt blocks A rnd) (levelAt blocks L rnd)) := by
+  have hh := totals_history unit dom hnd blocks A L hv hb hg
+  rw [hh] at hrun
+  have ets : ts = (sumsAlong unit dom blocks A).1 := by
+    injection hrun with h; exact (congrArg Prod.fst h).symm
+  subst ets
+  rw [served_refines _ s hinv rnd, if_pos ⟨hlo, by simp [sumsAlong_length]; omega⟩]
+  exact hist_get unit dom blocks A L rnd hhi
+
 /-! ## Tie to the translated functions of totals.go (Gen.Totals, regenerated each run) -/
 
 def toGenCount (c : AlgoCount) : Gen.Totals.ledgercore_AlgoCount := ⟨c.money, c.rewardUnits⟩
@@ -977,6 +1032,11 @@ example : totalMoney 1000 8 exDom (applyMods exA exMods') = totalMoney 1000 5 ex
 example : calculateTotals 1000 (SumOf 1000 exDom exA 5) exA exMods' 8 = .ok (SumOf 1000 exDom (applyMods exA exMods') 8) := by rfl
 example : GoodHist 1000 exDom [⟨8, exMods'⟩, ⟨8, []⟩] exA 5 := by
   unfold GoodHist GoodHist GoodHist ModsOK NoOverflow; decide
+/-- the composed statement on the two-block history: after a commit of offset 1 round 0 is gone, rounds 1 and 2 are served with their sums -/
+example : ((((RT.load 0 (SumOf 1000 exDom exA 5)).newBlock (SumOf 1000 exDom (applyMods exA exMods') 8)).newBlock
+    (SumOf 1000 exDom (applyMods exA exMods') 8)).commit 1).map
+      (fun s => (s.totals 0, s.totals 2 == some (SumOf 1000 exDom (mapAt [⟨8, exMods'⟩, ⟨8, []⟩] exA 2) 8)))
+    = some (none, true) := by decide
 /-- `with_updated_rewards`: all three outcomes occur -/
 example : WithUpdatedRewards 1000 1 5000 0 3 8 = some (5025, 25, 8) := by decide
 example : WithUpdatedRewards 1000 1 5000 0 9 8 = none := by decide
